@@ -227,6 +227,64 @@ def build():
     if len(re.findall(r"let\s+rr\s*=\s*rr\?\s*;", cp)) != 3 or len(re.findall(r"source\.next_section\(\)\?\.unwrap\(\)", cp)) != 2:
         raise GenError("copy_records: loop shape changed")
 
+    # --- display-time iteration of checked structures: every unwrap / expect / index site
+    def sites(body):
+        return len(re.findall(r"\.unwrap\(\)|\.expect\(|unreachable!|panic!|todo!|unimplemented!", body))
+    def expect_sites(what, body, n):
+        k = sites(body)
+        if k != n:
+            raise GenError("%s: %d unwrap/expect/panic sites, the model has %d" % (what, k, n))
+        return k
+    dn = strip_comments(read("src/rdata/dnssec.rs"))
+    bc = fn_body(dn, "contains", after="impl<Octs: AsRef<[u8]>> RtypeBitmap<Octs>")
+    defs.append(("sites_bitmap_contains", "N", N(expect_sites("RtypeBitmap::contains", bc, 1))))
+    one(r"read_window\(\s*data\s*\)\.unwrap\(\)", bc, "contains read_window unwrap")
+    bi = impl_body(dn, r"impl<'a> RtypeBitmapIter<'a>\s*\{")
+    expect_sites("RtypeBitmapIter::{new,advance}", bi, 0)
+    nidx = len(re.findall(r"(?:self\.)?data\[[^\]]+\]", bi))
+    defs.append(("index_sites_bitmap_iter", "N", N(nidx)))
+    if nidx != 9:
+        raise GenError("RtypeBitmapIter::{new,advance}: %d slice/index sites, the model has 9" % nidx)
+    m = one(r"self\.bit\s*==\s*(\d+)", bi, "bitmap iter bit wrap")
+    defs.append(("bitmap_bits", "N", N(int(m.group(1)))))
+    bn = fn_body(dn, "next", after="impl Iterator for RtypeBitmapIter<'_>")
+    expect_sites("RtypeBitmapIter::next", bn, 0)
+    fo = fn_body(dn, "from_octets", after="impl<Octs> RtypeBitmap<Octs>")
+    m = one(r"if\s+len\s*==\s*(\d+)\s*\{\s*return\s+Err.*?if\s+len\s*>\s*(\d+)\s*\{\s*return\s+Err", fo, "bitmap window length checks")
+    defs.append(("bitmap_len_empty", "N", N(int(m.group(1)))))
+    defs.append(("bitmap_len_max", "N", N(int(m.group(2)))))
+    tx = strip_comments(read("src/rdata/rfc1035/txt.rs"))
+    tn = fn_body(tx, "next", after="impl<'a> Iterator for TxtCharStrIter<'a>")
+    defs.append(("sites_txt_iter", "N", N(expect_sites("TxtCharStrIter::next", tn, 1))))
+    sp = strip_comments(read("src/rdata/svcb/params.rs"))
+    d1 = fn_body(sp, "fmt", after="impl<Octs: AsRef<[u8]> + ?Sized> fmt::Display for SvcParams<Octs>")
+    d2 = fn_body(sp, "fmt", after="impl<Octs: AsRef<[u8]> + ?Sized> ZonefileFmt for SvcParams<Octs>")
+    defs.append(("sites_svc_display", "N", N(expect_sites("Display for SvcParams", d1, 3))))
+    expect_sites("ZonefileFmt for SvcParams", d2, 3)
+    ir = fn_body(sp, "iter_raw")
+    expect_sites("SvcParams::iter_raw", ir, 1)
+    sv = strip_comments(read("src/rdata/svcb/value.rs"))
+    pa = fn_body(sv, "parse_any")
+    defs.append(("sites_svc_parse_any", "N", N(expect_sites("AllValues::parse_any", pa, 2))))
+    tot = 0
+    for nm, n in (("MandatoryIter", 1), ("AlpnIter", 2), ("Ipv4HintIter", 1), ("Ipv6HintIter", 1), ("TlsSupportedGroupsIter", 1)):
+        mm = re.search(r"Iterator\s+for\s+%s<" % nm, sv)
+        if not mm:
+            raise GenError("impl Iterator for %s not found" % nm)
+        b = fn_body(sv[mm.start():], "next")
+        tot += expect_sites(nm + "::next", b, n)
+    defs.append(("sites_svc_value_iters", "N", N(tot)))
+    for nm in ("Mandatory", "Alpn", "Ipv4Hint", "Ipv6Hint", "TlsSupportedGroups", "DohPath", "Ech"):
+        b = fn_body(sv, "fmt", after="fmt::Display for %s<Octs>" % nm)
+        expect_sites("Display for " + nm, b, 0)
+    keys = strip_comments(read("src/base/iana/svcb.rs"))
+    want = {"MANDATORY": 0, "ALPN": 1, "NO_DEFAULT_ALPN": 2, "PORT": 3, "IPV4HINT": 4, "ECH": 5, "IPV6HINT": 6, "DOHPATH": 7, "OHTTP": 8, "TLS_SUPPORTED_GROUPS": 9}
+    for kname, kval in want.items():
+        mm = re.search(r"\(\s*%s\s*=>\s*(\d+)" % kname, keys)
+        if not mm or int(mm.group(1)) != kval:
+            raise GenError("SvcParamKey::%s is not %d" % (kname, kval))
+    defs.append(("svc_keys_checked", "N", N(len(want))))
+
     # --- record.rs: fixed part skipped by parse_rdlen
     rs_ = strip_comments(read("src/base/record.rs"))
     rl = fn_body(rs_, "parse_rdlen")
